@@ -59,6 +59,16 @@ pub struct StateApplyManager {
     data_wrap: Option<Arc<RaftDataHandler>>,
     snapshot_next_index: u64,
     last_applied_log: u64,
+    /// requests of the raft core that arrived before the bean factory injected this actor
+    pending_requests: Vec<PendingApplyRequest>,
+}
+
+enum PendingApplyRequest {
+    Batch(StateApplyRequest),
+    Async(
+        StateApplyAsyncRequest,
+        tokio::sync::oneshot::Sender<anyhow::Result<StateApplyResponse>>,
+    ),
 }
 
 impl Default for StateApplyManager {
@@ -76,6 +86,37 @@ impl StateApplyManager {
             data_wrap: None,
             snapshot_next_index: 1,
             last_applied_log: 0,
+            pending_requests: Vec::new(),
+        }
+    }
+
+    fn is_injected(&self) -> bool {
+        self.index_manager.is_some()
+            && self.snapshot_manager.is_some()
+            && self.log_manager.is_some()
+            && self.data_wrap.is_some()
+    }
+
+    /// The raft core is started before the bean factory injects the actors, so it can ask for an
+    /// apply first. Such requests are queued again behind the start-up load (which blocks the mailbox),
+    /// in their original order.
+    fn resend_pending_requests(&mut self, ctx: &mut Context<Self>) {
+        for item in std::mem::take(&mut self.pending_requests) {
+            match item {
+                PendingApplyRequest::Batch(req) => {
+                    ctx.address().do_send(req);
+                }
+                PendingApplyRequest::Async(req, tx) => {
+                    let fut = ctx.address().send(req);
+                    actix::spawn(async move {
+                        let r = match fut.await {
+                            Ok(v) => v,
+                            Err(e) => Err(anyhow::anyhow!("resend apply request error,{}", e)),
+                        };
+                        tx.send(r).ok();
+                    });
+                }
+            }
         }
     }
 
@@ -335,6 +376,7 @@ impl Inject for StateApplyManager {
         self.data_wrap = factory_data.get_bean();
 
         self.init(ctx);
+        self.resend_pending_requests(ctx);
     }
 }
 
@@ -382,6 +424,10 @@ impl Handler<StateApplyRequest> for StateApplyManager {
     type Result = anyhow::Result<StateApplyResponse>;
 
     fn handle(&mut self, msg: StateApplyRequest, ctx: &mut Self::Context) -> Self::Result {
+        if !self.is_injected() && !matches!(msg, StateApplyRequest::GetLastAppliedLog) {
+            self.pending_requests.push(PendingApplyRequest::Batch(msg));
+            return Ok(StateApplyResponse::None);
+        }
         match msg {
             /*
             StateApplyRequest::ApplyRequest(request) => {
@@ -418,6 +464,15 @@ impl Handler<StateApplyAsyncRequest> for StateApplyManager {
     type Result = ResponseActFuture<Self, anyhow::Result<StateApplyResponse>>;
 
     fn handle(&mut self, msg: StateApplyAsyncRequest, _ctx: &mut Self::Context) -> Self::Result {
+        if !self.is_injected() {
+            let (tx, rx) = tokio::sync::oneshot::channel();
+            self.pending_requests
+                .push(PendingApplyRequest::Async(msg, tx));
+            let fut = async move { rx.await? }
+                .into_actor(self)
+                .map(|r, _act, _ctx| r);
+            return Box::pin(fut);
+        }
         let log_manager = self.log_manager.clone().unwrap();
         let index_manager = self.index_manager.clone().unwrap();
         let snapshot_manager = self.snapshot_manager.clone().unwrap();
